@@ -1,4 +1,5 @@
 import CryoCat.Lemmas.C18
+import CryoCat.Lemmas.C18_Angle
 import Mathlib.Algebra.Order.Ring.Defs
 /-! C18 — nearest-neighbour analysis equals brute force and is invariant under rigid motion.
 Only property theorems and non-vacuity examples; helper lemmas live in `Lemmas/C18.lean`.
@@ -70,13 +71,170 @@ theorem stats_columns_documented :
     Gen.C18.statsHstack = "(nn_dist.reshape((nn_dist.shape[0],1)),centered_coord,rotated_coord,ang_dst.reshape((nn_dist.shape[0],1)),coord_rot,angles,subtomo_idx.reshape((nn_dist.shape[0],1)),subtomo_idx_nn.reshape((nn_dist.shape[0],1)))" :=
   ⟨rfl, rfl, rfl⟩
 
-/-- angular distance = `degrees(2·arccos|q₁·q₂|)` (a clamp of the dot product to ≤ 1 is allowed), selected by
+/-- angular distance = `degrees(2·arccos(min(|q₁·q₂|, 1)))` (the dot product IS clamped to ≤ 1: without the clamp a
+pair of identical orientations gives NaN in binary64), selected by
 `rotation_type == 'angular_distance'`; `rot_x,y,z` is the relative rotation applied to the z axis -/
 theorem angular_formula_documented :
     Gen.C18.angularFormula = "np.degrees(2*np.arccos(np.abs(np.sum(q1*q2,axis=1))))" ∧
+    Gen.C18.angularDotClamp = "clamped" ∧
     Gen.C18.compareBranch = "angular_distance(angles1,angles2,c_symmetry=c_symmetry)[0];rotation_type=='angular_distance';returndist_degrees" ∧
     Gen.C18.zAxisExpr = "np.array([0.0,0.0,radius]);np.array(rotations.apply(starting_point),ndmin=2)" :=
-  ⟨rfl, rfl, rfl⟩
+  ⟨rfl, rfl, rfl, rfl⟩
+
+/-! ### signature defaults (the statement's call `get_nn_stats(a, b, nn_number=k, pixel_size=px)` relies on them) and whole bodies -/
+
+/-- the defaults of `get_nn_stats` — tomograms are told apart by `tomo_id`, the angle reported is the angular
+distance, one neighbour, pixel size 1 — and of the functions it calls; `get_nn_stats` hands every one of its
+arguments on BY KEYWORD to the right parameter, asks `visualize_rotations` for no plot (unit radius by default) -/
+theorem defaults_documented :
+    Gen.C18.sigStats = ["pixel_size=1.0", "feature_id='tomo_id'", "nn_number=1", "rotation_type='angular_distance'"] ∧
+    Gen.C18.sigDistances = ["pixel_size=1.0", "nn_number=1", "feature='tomo_id'", "rotation_type='angular_distance'"] ∧
+    Gen.C18.sigRotations = ["nn_number=1", "feature='tomo_id'", "type_id='geom1'"] ∧
+    Gen.C18.sigIndices = ["nn_number=1"] ∧
+    Gen.C18.sigGeom = ["c_symmetry=1;rotation_type='all'", "convention='zxz';degrees=True;c_symmetry=1", "plot_rotations=True;color_map=None;marker_size=20;alpha=1.0;radius=1.0"] ∧
+    Gen.C18.innerCalls = ["get_nn_distances(motl_a,motl_nn,nn_number=nn_number,pixel_size=pixel_size,feature=feature_id,rotation_type=rotation_type)", "get_nn_rotations(motl_a,motl_nn,feature=feature_id,nn_number=nn_number)", "geom.visualize_rotations(nn_rotations,plot_rotations=False)", "get_feature_nn_indices(fm_a,fm_nn,nn_number);get_feature_nn_indices(fm_a,fm_nn,nn_number)"] :=
+  ⟨rfl, rfl, rfl, rfl, rfl, rfl⟩
+
+/-- the whole body of `get_feature_nn_indices` (local variables renamed by binding order to the documented names) -/
+theorem body_indices_documented : Gen.C18.bodyIndices = [
+  "def get_feature_nn_indices(fm_a,fm_nn,nn_number=1)",
+  ".coord_a=fm_a.get_coordinates()",
+  ".coord_nn=fm_nn.get_coordinates()",
+  ".nn_count=min(nn_number,coord_nn.shape[0])",
+  ".kdt_nn=sn.KDTree(coord_nn)",
+  ".nn_dist,nn_idx=kdt_nn.query(coord_a,k=nn_count)",
+  ".ordered_idx=np.arange(0,nn_idx.shape[0],1)",
+  ".return(ordered_idx,nn_idx.reshape((nn_idx.shape[0],nn_count)),nn_dist.reshape((nn_idx.shape[0],nn_count)),nn_count)"] := rfl
+
+/-- the whole body of `get_nn_distances`, including the `isinstance(·, str)` branches no case executes -/
+theorem body_distances_documented : Gen.C18.bodyDistances = [
+  "def get_nn_distances(motl_a,motl_nn,pixel_size=1.0,nn_number=1,feature='tomo_id',rotation_type='angular_distance')",
+  ".if isinstance(motl_a,str)",
+  "..motl_a=cryomotl.Motl(motl_path=motl_a)",
+  ".if isinstance(motl_nn,str)",
+  "..motl_nn=cryomotl.Motl(motl_path=motl_nn)",
+  ".features_a=np.unique(motl_a.df.loc[:,feature].values)",
+  ".features_nn=np.unique(motl_nn.df.loc[:,feature].values)",
+  ".features=np.intersect1d(features_a,features_nn,assume_unique=True)",
+  ".centered_coord=[]",
+  ".nn_dist=[]",
+  ".angular_distances=[]",
+  ".rotated_coord=[]",
+  ".subtomo_idx=[]",
+  ".subtomo_idx_nn=[]",
+  ".for f in features",
+  "..fm_a=motl_a.get_motl_subset(f,feature_id=feature)",
+  "..fm_nn=motl_nn.get_motl_subset(f,feature_id=feature)",
+  "..idx,nn_idx,dist,nn_count=get_feature_nn_indices(fm_a,fm_nn,nn_number)",
+  "..if len(idx)==0",
+  "...continue",
+  "..coord_nn=fm_nn.get_coordinates()*pixel_size",
+  "..coord_a=fm_a.get_coordinates()*pixel_size",
+  "..angles_a=fm_a.get_angles()",
+  "..angles_a=angles_a[idx,:]",
+  "..angles_nn=fm_nn.get_angles()",
+  "..rotations=srot.from_euler('zxz',angles=angles_a,degrees=True)",
+  "..angles=-fm_a.df[['psi','theta','phi']].values",
+  "..angles=angles[idx,:]",
+  "..rot=srot.from_euler('zxz',angles=angles,degrees=True)",
+  "..subtomos_nn=fm_nn.df['subtomo_id'].to_numpy()",
+  "..subtomos_a=fm_a.df['subtomo_id'].to_numpy()",
+  "..for i in range(nn_count)",
+  "...c_coord=coord_nn[nn_idx[:,i],:]-coord_a[idx,:]",
+  "...centered_coord.append(c_coord)",
+  "...nn_dist.append(dist[:,i]*pixel_size)",
+  "...angles_nn_sel=angles_nn[nn_idx[:,i],:]",
+  "...rotations_nn=srot.from_euler('zxz',angles=angles_nn_sel,degrees=True)",
+  "...angular_distances.append(geom.compare_rotations(rotations,rotations_nn,rotation_type=rotation_type))",
+  "...rotated_coord.append(rot.apply(c_coord))",
+  "...subtomo_idx_nn.append(subtomos_nn[nn_idx[:,i]])",
+  "...subtomo_idx.append(subtomos_a[idx])",
+  ".return(np.vstack(centered_coord),np.vstack(rotated_coord),np.concatenate(nn_dist),np.concatenate(angular_distances),np.concatenate(subtomo_idx),np.concatenate(subtomo_idx_nn))"] := rfl
+
+/-- the whole body of `get_nn_rotations` -/
+theorem body_rotations_documented : Gen.C18.bodyRotations = [
+  "def get_nn_rotations(motl_a,motl_nn,nn_number=1,feature='tomo_id',type_id='geom1')",
+  ".if isinstance(motl_a,str)",
+  "..motl_a=cryomotl.Motl(motl_path=motl_a)",
+  ".if isinstance(motl_nn,str)",
+  "..motl_nn=cryomotl.Motl(motl_path=motl_nn)",
+  ".features_a=np.unique(motl_a.df.loc[:,feature].values)",
+  ".features_nn=np.unique(motl_nn.df.loc[:,feature].values)",
+  ".features=np.intersect1d(features_a,features_nn,assume_unique=True)",
+  ".nn_rotations=[]",
+  ".for f in features",
+  "..fm_a=motl_a.get_motl_subset(f,feature_id=feature)",
+  "..fm_nn=motl_nn.get_motl_subset(f,feature_id=feature)",
+  "..idx,idx_nn,_,nn_count=get_feature_nn_indices(fm_a,fm_nn,nn_number)",
+  "..angles_nn=fm_nn.get_angles()",
+  "..angles_ref_to_zero=-fm_a.get_feature(['psi','theta','phi'])",
+  "..rot_to_zero=srot.from_euler('zxz',angles=angles_ref_to_zero[idx,:],degrees=True)",
+  "..for i in range(nn_count)",
+  "...rot_nn=srot.from_euler('zxz',angles=angles_nn[idx_nn[:,i],:],degrees=True)",
+  "...nn_rotations.append(rot_to_zero*rot_nn)",
+  ".nn_rotations=srot.concatenate(nn_rotations)",
+  ".points_on_sphere=geom.visualize_rotations(nn_rotations,plot_rotations=False)",
+  ".angles=nn_rotations.as_euler('zxz',degrees=True)",
+  ".return(points_on_sphere,angles)"] := rfl
+
+/-- the whole body of `get_nn_stats` -/
+theorem body_stats_documented : Gen.C18.bodyStats = [
+  "def get_nn_stats(motl_a,motl_nn,pixel_size=1.0,feature_id='tomo_id',nn_number=1,rotation_type='angular_distance')",
+  ".centered_coord,rotated_coord,nn_dist,ang_dst,subtomo_idx,subtomo_idx_nn=get_nn_distances(motl_a,motl_nn,nn_number=nn_number,pixel_size=pixel_size,feature=feature_id,rotation_type=rotation_type)",
+  ".coord_rot,angles=get_nn_rotations(motl_a,motl_nn,feature=feature_id,nn_number=nn_number)",
+  ".nn_stats=pd.DataFrame(np.hstack((nn_dist.reshape((nn_dist.shape[0],1)),centered_coord,rotated_coord,ang_dst.reshape((nn_dist.shape[0],1)),coord_rot,angles,subtomo_idx.reshape((nn_dist.shape[0],1)),subtomo_idx_nn.reshape((nn_dist.shape[0],1)))),columns=['distance','coord_x','coord_y','coord_z','coord_rx','coord_ry','coord_rz','angular_distance','rot_x','rot_y','rot_z','phi','theta','psi','subtomo_idx','subtomo_nn_idx'])",
+  ".nn_stats['type']='nn'",
+  ".returnnn_stats"] := rfl
+
+/-- the whole bodies of `geom.angular_distance` (with the `c_symmetry > 1` branch no case executes) and
+`geom.compare_rotations` (with the other `rotation_type` branches) -/
+theorem body_geom_documented :
+    Gen.C18.bodyAngular = [
+  "def angular_distance(input_rot1,input_rot2,convention='zxz',degrees=True,c_symmetry=1)",
+  ".if isinstance(input_rot1,np.ndarray)",
+  "..rot1=srot.from_euler(convention,input_rot1,degrees=degrees)",
+  ".else",
+  "..rot1=input_rot1",
+  ".if isinstance(input_rot2,np.ndarray)",
+  "..rot2=srot.from_euler(convention,input_rot2,degrees=degrees)",
+  ".else",
+  "..rot2=input_rot2",
+  ".if c_symmetry>1",
+  "..angles1=rot1.as_euler(convention,degrees=degrees)",
+  "..angles2=rot2.as_euler(convention,degrees=degrees)",
+  "..sym_div=360.0/c_symmetry",
+  "..angles1[:,0]=np.mod(angles1[:,0],sym_div)",
+  "..angles2[:,0]=np.mod(angles2[:,0],sym_div)",
+  "..rot1=srot.from_euler(convention,angles1,degrees=degrees)",
+  "..rot2=srot.from_euler(convention,angles2,degrees=degrees)",
+  ".q1=np.array(rot1.as_quat(),ndmin=2)",
+  ".q2=np.array(rot2.as_quat(),ndmin=2)",
+  ".if q1.shape!=q2.shape",
+  "..print('Thesizeofinputrotationsdiffer!!!')",
+  "..return",
+  ".angle=np.degrees(2*np.arccos(np.minimum(np.abs(np.sum(q1*q2,axis=1)),1.0)))",
+  ".angle=angle.astype(float)",
+  ".dist=1-np.power(np.sum(q1*q2,1),2)",
+  ".dist[dist<1e-07]=0",
+  ".return(angle,dist)"] ∧
+    Gen.C18.bodyCompare = [
+  "def compare_rotations(angles1,angles2,c_symmetry=1,rotation_type='all')",
+  ".dist_degrees=angular_distance(angles1,angles2,c_symmetry=c_symmetry)[0]",
+  ".dist_degrees_normals,dist_degrees_inplane=cone_inplane_distance(angles1,angles2,c_symmetry=c_symmetry)",
+  ".if rotation_type=='all'",
+  "..return(dist_degrees,dist_degrees_normals,dist_degrees_inplane)",
+  ".else",
+  "..if rotation_type=='angular_distance'",
+  "...returndist_degrees",
+  "..else",
+  "...if rotation_type=='cone_distance'",
+  "....returndist_degrees_normals",
+  "...else",
+  "....if rotation_type=='in_plane_distance'",
+  ".....returndist_degrees_inplane",
+  "....else",
+  ".....raiseUserInputError(f'Therotationtype{rotation_type}isnotsupported.')"] :=
+  ⟨rfl, rfl⟩
 
 /-! ### the k reported neighbours are the k closest, in ascending order -/
 
@@ -242,6 +400,77 @@ theorem turn_keeps [CommRing α] (Q : M3 α) (r : Row α) :
     (r.turn Q).offset = Q.apply r.offset :=
   ⟨rfl, rfl, rfl, rfl, rfl, rfl, rfl, rfl, rfl, rfl, rfl, rfl, rfl⟩
 
+/-! ### the angular distance IS the rotation angle of the relative orientation (over ℝ, through C06)
+
+In the theorems above the angle is whatever the service `S.ang` returns. Here the service is the real
+counterpart `realNum` of the driver's (`atan2(√skewSq/2, (trace−1)/2)` in degrees), and the value is tied to
+C06: `angDist_is_rotation_angle`, `trace_rel`. -/
+
+/-- **One row.** For a query and a neighbour whose Euler angles are real numbers, the row's angular distance
+(i) is the angle in `[0°, 180°]` whose cosine is `(trace − 1)/2` of the relative orientation `R_qᵀ·R_n` reported in
+the same row — the rotation angle of the relative orientation — and (ii) is the quaternion form
+`degrees(2·arccos(min(|q₁·q₂|, 1)))` that `geom.angular_distance` evaluates on the quaternions of the two
+orientations (C06's model `angDist` of that function). -/
+theorem angular_distance_is_rotation_angle (at2 : ℝ → ℝ → ℝ) (px : ℝ) (tm : Int) (i j : Nat) (q n : Pt ℝ)
+    (φq θq ψq φn θn ψn : ℝ) (hq : q.HasAngles φq θq ψq) (hn : n.HasAngles φn θn ψn) :
+    (mkRow realNum px tm i q j n).rel = (rot q).transpose * rot n ∧
+    (mkRow realNum px tm i q j n).ang
+      = deg (Real.arccos ((trace ((rot q).transpose * rot n) - 1) / 2)) ∧
+    (mkRow realNum px tm i q j n).ang
+      = C06.angDist (C06.realLibm at2) (quatOf φq θq ψq) (quatOf φn θn ψn) ∧
+    0 ≤ (mkRow realNum px tm i q j n).ang ∧ (mkRow realNum px tm i q j n).ang ≤ 180 := by
+  obtain ⟨uq, mq⟩ := hq.quat
+  obtain ⟨un, mn⟩ := hn.quat
+  have hrel : (mkRow realNum px tm i q j n).rel = (rot q).transpose * rot n := by
+    simp only [mkRow, rotInv_eq_transpose]
+  have hang : (mkRow realNum px tm i q j n).ang
+      = realNum.ang (trace ((rot q).transpose * rot n)) (skewSq ((rot q).transpose * rot n)) := by
+    simp only [mkRow, rotInv_eq_transpose]
+  have hquat := realNum_ang_quat at2 _ _ uq un
+  rw [mq, mn] at hquat
+  refine ⟨hrel, ?_, ?_, ?_⟩
+  · rw [hang, ← mq, ← mn]; exact realNum_ang_rel _ _ uq un
+  · rw [hang]; exact hquat
+  · rw [hang, hquat]; exact C06.angDist_range at2 _ _
+
+/-- **Every row of the table.** When every particle's Euler angles are real numbers, each row of the table
+computed with the real services is the report about a query `q` and a same-tomogram particle `n` (`RowOf`, as in
+`nnStats_sound`) and its angular distance is the rotation angle of `R_qᵀ·R_n`; it equals
+`degrees(2·arccos(min(|p·p'|, 1)))` for ANY unit quaternions `p`, `p'` of the two orientations (either sign, as
+scipy may return). -/
+theorem nnStats_angular_real (at2 : ℝ → ℝ → ℝ) (px : ℝ) (k : Nat) (a nn : List (Pt ℝ))
+    (ha : ∀ p ∈ a, ∃ φ θ ψ, p.HasAngles φ θ ψ) (hn : ∀ p ∈ nn, ∃ φ θ ψ, p.HasAngles φ θ ψ)
+    (r : Row ℝ) (h : r ∈ nnStats realNum px k a nn) :
+    ∃ q n, RowOf realNum px k a nn r q n ∧
+      r.ang = deg (Real.arccos ((trace ((rot q).transpose * rot n) - 1) / 2)) ∧
+      ∀ p p' : C06.Q4 ℝ, C06.qnormSq p = 1 → C06.qnormSq p' = 1 → C06.toM3 p = rot q → C06.toM3 p' = rot n →
+        r.ang = C06.angDist (C06.realLibm at2) p p' := by
+  obtain ⟨q, n, ro⟩ := nnStats_sound realNum px k a nn r h
+  obtain ⟨φq, θq, ψq, hq⟩ := ha q ro.q_mem
+  obtain ⟨φn, θn, ψn, hnn⟩ := hn n ro.n_mem
+  obtain ⟨uq, mq⟩ := hq.quat
+  obtain ⟨un, mn⟩ := hnn.quat
+  have hang : r.ang = realNum.ang (trace ((rot q).transpose * rot n)) (skewSq ((rot q).transpose * rot n)) := by
+    rw [ro.ang, ro.rel]
+  refine ⟨q, n, ro, ?_, ?_⟩
+  · rw [hang, ← mq, ← mn]; exact realNum_ang_rel _ _ uq un
+  · intro p p' hp hp' ep ep'
+    rw [hang, ← ep, ← ep']; exact realNum_ang_quat at2 p p' hp hp'
+
+/-- the real square root is the square-root service the distance clause needs: monotone, and the reported
+distance squared is `px²` times the squared distance of the complete positions -/
+theorem realNum_distance (px : ℝ) (tm : Int) (i j : Nat) (q n : Pt ℝ) :
+    (mkRow realNum px tm i q j n).dist * (mkRow realNum px tm i q j n).dist
+      = px * px * V3.normSq ((n.base + n.shift) - (q.base + q.shift)) ∧
+    (∀ x y : ℝ, x ≤ y → realNum.sqrt x ≤ realNum.sqrt y) := by
+  refine ⟨?_, fun x y h => Real.sqrt_le_sqrt h⟩
+  have h0 : 0 ≤ V3.normSq ((n.base + n.shift) - (q.base + q.shift)) := by
+    simp only [V3.normSq, V3.dot]; nlinarith [mul_self_nonneg ((n.base + n.shift) - (q.base + q.shift)).x,
+      mul_self_nonneg ((n.base + n.shift) - (q.base + q.shift)).y, mul_self_nonneg ((n.base + n.shift) - (q.base + q.shift)).z]
+  simp only [mkRow, realNum, d2, pos]
+  have := Real.mul_self_sqrt h0
+  linear_combination (px * px) * this
+
 /-! ### non-vacuity: the hypotheses above are satisfiable by non-trivial inputs -/
 
 /-- a quarter turn about z is orthogonal -/
@@ -255,6 +484,12 @@ example : Moved (rz (0 : Int) 1) ⟨5, 6, 7⟩
   { tomo := rfl, sub := rfl, pos := by decide, rot := by decide,
     wf := ⟨by unfold Ang.Unit; decide, by unfold Ang.Unit; decide, by unfold Ang.Unit; decide⟩,
     wf' := ⟨by unfold Ang.Unit; decide, by unfold Ang.Unit; decide, by unfold Ang.Unit; decide⟩ }
+
+/-- a particle over ℝ whose Euler angles are real numbers (1, 2, 3 radians), with a non-zero shift: the hypothesis
+of `angular_distance_is_rotation_angle` / `nnStats_angular_real` -/
+noncomputable example : ∃ p : Pt ℝ, p.HasAngles 1 2 3 ∧ p.shift = ⟨1, 0, -1⟩ :=
+  ⟨{ tomo := 3, sub := 11, base := ⟨1, 2, 3⟩, shift := ⟨1, 0, -1⟩, phi := angOf 1, theta := angOf 2, psi := angOf 3 },
+    ⟨rfl, rfl, rfl⟩, rfl⟩
 
 /-- distinct keys exist -/
 example : NoTies 4 (fun i => (3 * i : Int)) := by
